@@ -766,7 +766,8 @@ class Database:
         pinned = self.pinned_name_offenders()
         out.coverage.update({
             "database": {k: int(v) for k, v in counts.items()},
-            "exhaustive": "all classes, property descriptors, enums and default values of the loaded database (no sampling)",
+            "exhaustive": True,
+            "exhaustive_scope": "all classes, property descriptors, enums and default values of the loaded database (no sampling)",
             "traces_validated_against_impl": lst.get("queries", 0) + dst.get("classes", 0) + dst.get("name_probe_properties", 0),
             "evaluations": lst.get("queries", 0),
             "distinct_nontrivial": lst.get("distinct_nontrivial", 0),
